@@ -174,6 +174,11 @@ type Outcome struct {
 
 type InjectedErr struct{ ID int }
 
+// sliceErr: an error of a slice type (comparing two of them with == panics).
+type sliceErr []int
+
+func (e sliceErr) Error() string { return fmt.Sprintf("injected error #%d (of a slice type)", e[0]) }
+
 func (e *InjectedErr) Error() string {
 	if e == nil {
 		return "injected typed-nil error"
@@ -225,6 +230,9 @@ var execHashes *[]uint64
 // performs so that the replay can print the full event traces.
 var obsHashOnly bool
 
+// nested: the parser a re-entering command uses for its own arguments.
+var nested *Built
+
 var recordRuns *[]RunRecord
 
 type RunRecord struct {
@@ -256,6 +264,10 @@ func makeInjected(id int, form string) error {
 	if form == "errtype:required" {
 		return flags.ErrRequired
 	}
+	if form == "uncomparable" {
+		// an error whose dynamic type cannot be compared with == (a slice type)
+		return sliceErr{id}
+	}
 	if form == "typed-nil-flags" {
 		var e *flags.Error // a nil *flags.Error inside a non-nil error interface
 		return e
@@ -282,7 +294,7 @@ func (c *RunCtx) callee(kind, who string, args []string) error {
 	}
 	var err error
 	for _, f := range c.sc.Callee {
-		if f.Kind == kind && f.Nth == n {
+		if f.Kind == kind && (f.Nth == n || f.Nth < 0) { // (Nth < 0: every call of this kind fails, with the same error value)
 			e, ok := c.errs[f.ID]
 			if !ok {
 				e = makeInjected(f.ID, f.Form)
@@ -307,6 +319,19 @@ func (c *RunCtx) callee(kind, who string, args []string) error {
 		c.b.KeptIni.ParseAsDefaults = true
 		if e := c.b.KeptIni.Parse(&simrt.Reader{Data: []byte(*c.sc.CfgIni)}); e != nil {
 			err = e
+		}
+	}
+	if kind == "execute" && c.sc.Decl != nil && c.sc.Decl.Reenter && len(args) > 0 {
+		// a command that parses the arguments it was given with a parser of its own
+		// (sudo-, exec-, help-like commands)
+		if nested == nil {
+			if db := Build(decoySpec()); db.P != nil && db.Err == nil {
+				db.P.Options |= flags.IgnoreUnknown
+				nested = db
+			}
+		}
+		if nested != nil {
+			nested.P.ParseArgs(args)
 		}
 	}
 	// programs commonly call back into the parser from a command or callback
@@ -603,6 +628,16 @@ func classifyErr(err error, res *OpResult) {
 		}
 		sort.Ints(ids)
 		for _, id := range ids {
+			if se, ok := err.(sliceErr); ok {
+				// (not comparable with ==: identified by its content)
+				if oe, ok := cur.errs[id].(sliceErr); ok && len(se) == 1 && len(oe) == 1 && se[0] == oe[0] {
+					res.InjectedIDs = append(res.InjectedIDs, id)
+				}
+				continue
+			}
+			if _, ok := cur.errs[id].(sliceErr); ok {
+				continue
+			}
 			if err == cur.errs[id] {
 				res.InjectedIDs = append(res.InjectedIDs, id)
 			}
